@@ -54,11 +54,15 @@ def build_site(params):
         path, q, query = l.partition('?')
         pages[crawlref.remove_dots(path) + q + query] = {'links': ['/']}
     if params.get('nofollow'):
-        pages['/'] = {'links': ['/nf', '/open']}
+        # three pages carry the declaration (a crawl shares one scraper object between
+        # all its pages), a page without it sits between them
+        pages['/'] = {'links': ['/nf', '/open', '/nfb', '/nfc']}
         pages['/nf'] = {'links': ['/hidden1', '/hidden2'], 'reqs': ['/nfimg.png'],
                         'meta_robots': params['nofollow']}
-        pages['/hidden1'] = {'links': []}
-        pages['/hidden2'] = {'links': []}
+        pages['/nfb'] = {'links': ['/hidden3'], 'meta_robots': params['nofollow']}
+        pages['/nfc'] = {'links': ['/hidden4', '/hidden1'], 'meta_robots': params['nofollow']}
+        for h in ('/hidden1', '/hidden2', '/hidden3', '/hidden4'):
+            pages[h] = {'links': []}
         pages['/nfimg.png'] = {'body': 'PNG', 'ctype': 'image/png'}
     if params.get('redir'):
         # allowed URLs that redirect into a disallowed path of the same origin and of
@@ -249,11 +253,11 @@ def judge(params, site, ua, out, events):
             return None     # "none" is not named by the property: either reading
         fetched = {q['target'] for q in out['requests']}
         if nof:
-            for h in ('/hidden1', '/hidden2'):
+            for h in ('/hidden1', '/hidden2', '/hidden3', '/hidden4'):
                 if h in fetched or ('http://a.test' + h) in rows:
                     return 'link %s on a nofollow page was followed' % h
         else:
-            for h in ('/hidden1', '/hidden2'):
+            for h in ('/hidden1', '/hidden2', '/hidden3', '/hidden4'):
                 if h not in fetched:
                     return 'link %s on a followable page was not followed' % h
     return None
